@@ -19,7 +19,7 @@ C(t, a) == [t |-> t, a |-> a]
 Calls == {C("dA", ""), C("dB", ""), C("eA", ""), C("eB", ""), C("cV", "one"), C("cV", "two"),
           C("sV", "one"), C("sV", "two"), C("mR", "l1"), C("mR", "l2"), C("fV", "s1"), C("fV", "s2"), C("dF", "one"), C("dF", "two"),
           C("gT", ""), C("gU", ""), C("gS", ""), C("gR", ""),
-          C("rQ", "one"), C("rQ", "")}
+          C("rQ", "one"), C("rQ", ""), C("nA", ""), C("nB", "")}
 
 Items(a) == CASE a = "l1" -> <<"1", "2">> [] a = "l2" -> <<"x">> [] a = "s1" -> <<"p", "q">> [] a = "s2" -> <<"r">> [] OTHER -> <<>>
 
@@ -35,6 +35,8 @@ Lines(c) ==
     [] c.t = "dF" -> <<"dF|work|" \o c.a, "dF|deferred|" \o c.a>>   \* a command and a deferred command printing the call variable
     [] c.t \in {"gT", "gU"} -> <<c.t \o "|g-" \o c.t>>   \* a Taskfile-level variable 'g-{{.TASK}}': per task, though defined once
     [] c.t \in {"gS", "gR"} -> <<c.t \o "|s-" \o c.t>>   \* a Taskfile-level sh: variable whose text mentions {{.TASK}}
+    [] c.t = "nA" -> <<"nA|env-a">>                  \* dotenv: ['.env'] with dir: ./a - the file of THIS task's directory
+    [] c.t = "nB" -> <<"nB|env-b">>                  \* the same entry with dir: ./b
     [] c.t = "rQ" -> IF c.a = "" THEN <<"rQ|!missing-required">> ELSE <<"rQ|" \o c.a>>   \* requires: {vars: [R]}: checked for THIS call
     [] c.t = "fV" -> [i \in 1..Len(Items(c.a)) |-> "fV|" \o Items(c.a)[i]]   \* for: {var: S}
 
